@@ -23,7 +23,8 @@ def gen_input(rng):
         toks = []
         for _ in range(nt):
             ln = rng.choice(LENS) if rng.random() < 0.93 else rng.choice([80, 150, 300])
-            ch = rng.choice(["a", "b", "x", "é", "0", "-", "_"])
+            # (à, Å, 丅 and NBSP contain the bytes 0xA0 / 0x85, which are blanks in Latin-1 but not separators here)
+            ch = rng.choice(["a", "b", "x", "é", "0", "-", "_", "à", "Å", "丅", "\u00a0", "x\x0b"])
             t = (ch * ln).encode()[:max(1, ln)]
             try:
                 t.decode()
@@ -272,7 +273,7 @@ def big_worker(job):
             per_line = rng.choice([1, 1, 5, 50])
             data = b"".join(b" ".join(toks[j:j + per_line]) + b"\n" for j in range(0, len(toks), per_line))
             opts = rng.choice([[], [], ["-n", str(len(toks) + 5)], ["-L", str(len(toks) + 5)], ["-x"], ["-r"],
-                               ["-s", str(rng.choice([budget * 4, 50000000, 1 << 31]))]])       # a legal -s far above what the system allows
+                               ["-s", str(rng.choice([budget * 4, 50000000, 1 << 31, 1 << 63, (1 << 63) + 5, (1 << 64) - 1]))]])   # a legal -s far above what the system allows
             initial = rng.choice([[], [b"init"], [b"a", b"b c"]])
             lim = stack_kib * 1024
 
